@@ -77,9 +77,7 @@ func main() {
 			fmt.Fprintln(os.Stderr, "replay file has no schedule:", err)
 			os.Exit(2)
 		}
-		// regenerate to restore the fingerprint labels; fall back to the stored one.
-		sp := c15.Gen(doc.Seed, doc.Witness.Case)
-		runOne(sp, opt)
+		runOne(doc.Witness.Spec, opt)
 		return
 	}
 	if *oneCase >= 0 {
@@ -114,6 +112,7 @@ func main() {
 	c15.ResolvePending(results, opt.Watchdog, 2*time.Second)
 
 	var pendingTotal int64
+	tickSchedules, tickRounds := 0, 0
 	for i, res := range results {
 		r.Case(res.Fingerprint, res.Nontrivial)
 		st := res.Stats
@@ -140,6 +139,9 @@ func main() {
 		pendingTotal += int64(len(res.Pending))
 		if res.Spec.Tick {
 			r.Count("tick_schedules", 1)
+			r.Count("tick_started_rounds_observed", int64(st.Rounds))
+			tickSchedules++
+			tickRounds += st.Rounds
 		}
 		if i < 400 && i%67 == 0 {
 			r.Sample(sample{Case: i, Fingerprint: res.Fingerprint, Spec: res.Spec, Stats: st,
@@ -167,7 +169,16 @@ func main() {
 	r.Count("goroutine_dumps_taken", c15.DumpsTaken.Load())
 	r.Set("schedule_phase_wall_s", runWall.Seconds())
 	r.Set("max_round_size", maxRound(results))
-	r.Finish(r.Pick(60, 300))
+	floor := r.Pick(60, 300)
+	if tickSchedules >= 5 && tickRounds == 0 {
+		// Whether an interval tick "should have fired by now" is a
+		// wall-clock question and therefore never a violation; but a run
+		// in which no tick-started rebroadcast was seen at all has
+		// observed nothing about that half of the statement.
+		fmt.Printf("C15: %d tick schedules produced no tick-started rebroadcast at all: tick part unobserved\n", tickSchedules)
+		floor = 1 << 30
+	}
+	r.Finish(floor)
 }
 
 var start = time.Now()
